@@ -1042,6 +1042,7 @@ class GSSNode:
                 self.extra,
                 token_ahead=token,
                 layout_content=self.layout_content,
+                layout_content_ahead=self.layout_content_ahead,
                 debug=self.debug,
             )
             new_head.parents = dict(self.parents)
